@@ -5,7 +5,7 @@ CONSTANTS
   XS1 <- X1_A
   XS2 <- X2_A
   FS2 <- FS2_A
-  ParamSet <- PS_Quick
+  ParamSet <- PS_Small
   MaxSteps = 4
   MaxRuns = 2
   D = 2520
